@@ -335,6 +335,14 @@ impl AssemblyCode {
                             unreachable!();
                         }
                     }
+                    Some(AsmLine::Inline(_, _)) => {
+                        // Inline assembly may change any register and the flags
+                        accumulator = None;
+                        x_register = None;
+                        y_register = None;
+                        flags = FlagsState::Unknown;
+                        second = iter.next();
+                    }
                     _ => second = iter.next(),
                 }
             }
